@@ -1,13 +1,240 @@
-// Package c05 is the harness for property C05 (runs the real kapacitor code, prints op lines).
+// Package c05 is the harness for property C05 ("no script, data point or peer message can crash the
+// daemon or kill a task").
+//
+// Every operation runs the REAL kapacitor code in a CHILD PROCESS (this binary re-executed with
+// `-worker`): the parent sends one op line, the worker answers one observation line. A panic in any
+// goroutine of the implementation (e.g. the lexer goroutine), a hang or a process exit therefore IS an
+// observation (`X crash`, `X hang`) of the op that was running and never kills the harness. Inside the
+// worker each op is additionally wrapped in recover (observation `panic`) and in a goroutine census
+// (observation `leak=<n>`).
 package c05
 
 import (
+	"bufio"
 	"fmt"
+	"io"
 	"os"
+	"os/exec"
+	"strconv"
+	"strings"
+	"sync"
+	"time"
+
+	"verifharness/kit"
 )
 
-// Run is replaced by the property's harness.
+// ---------------------------------------------------------------------------------------------
+// worker pool (parent side)
+
+type worker struct {
+	cmd *exec.Cmd
+	in  io.WriteCloser
+	out *bufio.Reader
+}
+
+func startWorker() (*worker, error) {
+	exe, err := os.Executable()
+	if err != nil {
+		return nil, err
+	}
+	cmd := exec.Command(exe, "-worker")
+	cmd.Env = os.Environ()
+	if os.Getenv("VERIF_LOG") != "" {
+		cmd.Stderr = os.Stderr
+	}
+	in, err := cmd.StdinPipe()
+	if err != nil {
+		return nil, err
+	}
+	out, err := cmd.StdoutPipe()
+	if err != nil {
+		return nil, err
+	}
+	if err := cmd.Start(); err != nil {
+		return nil, err
+	}
+	return &worker{cmd: cmd, in: in, out: bufio.NewReaderSize(out, 1<<20)}, nil
+}
+
+func (w *worker) kill() {
+	w.in.Close()
+	w.cmd.Process.Kill()
+	w.cmd.Wait()
+}
+
+func opTimeout(op string) time.Duration {
+	switch strings.SplitN(op, " ", 2)[0] {
+	case "live", "udfsrv":
+		return 40 * time.Second
+	}
+	return 15 * time.Second
+}
+
+// ask sends one op to the worker and returns its observation; alive=false when the worker is gone.
+func (w *worker) ask(op string) (obs string, alive bool) {
+	if _, err := io.WriteString(w.in, op+"\n"); err != nil {
+		w.kill()
+		return "X crash", false
+	}
+	type res struct {
+		s   string
+		err error
+	}
+	ch := make(chan res, 1)
+	go func() {
+		for {
+			line, err := w.out.ReadString('\n')
+			if err != nil {
+				ch <- res{"", err}
+				return
+			}
+			if strings.HasPrefix(line, "R ") {
+				ch <- res{strings.TrimSpace(line[2:]), nil}
+				return
+			}
+			// anything else is stray library output: ignored
+		}
+	}()
+	select {
+	case r := <-ch:
+		if r.err != nil {
+			w.kill()
+			return "X crash", false
+		}
+		return r.s, true
+	case <-time.After(opTimeout(op)):
+		w.kill()
+		<-ch
+		return "X hang", false
+	}
+}
+
+// execCases runs the cases on a pool of workers and returns the op lines with observations, in order.
+func execCases(cases [][]string, nworkers int) [][]string {
+	out := make([][]string, len(cases))
+	idx := make(chan int, len(cases))
+	for i := range cases {
+		idx <- i
+	}
+	close(idx)
+	var wg sync.WaitGroup
+	for k := 0; k < nworkers; k++ {
+		wg.Add(1)
+		go func() {
+			defer wg.Done()
+			var w *worker
+			defer func() {
+				if w != nil {
+					w.kill()
+				}
+			}()
+			for i := range idx {
+				var res []string
+				for _, raw := range cases[i] {
+					op := normalizeOp(stripObs(raw))
+					if op == "" {
+						continue
+					}
+					if w == nil {
+						var err error
+						if w, err = startWorker(); err != nil {
+							fmt.Fprintln(os.Stderr, "c05: cannot start worker:", err)
+							os.Exit(3)
+						}
+					}
+					obs, alive := w.ask(op)
+					if !alive {
+						w = nil
+					}
+					res = append(res, op+" => "+obs)
+				}
+				out[i] = res
+			}
+		}()
+	}
+	wg.Wait()
+	return out
+}
+
+func stripObs(line string) string {
+	if i := strings.Index(line, " => "); i >= 0 {
+		return line[:i]
+	}
+	return strings.TrimSpace(line)
+}
+
+// normalizeOp recomputes the oracle tokens of an op line (the character-class table of `lex`/`parse`
+// lines is computed here with Go's unicode tables, whatever the file said).
+func normalizeOp(op string) string {
+	t := strings.Fields(op)
+	if len(t) == 0 {
+		return ""
+	}
+	switch t[0] {
+	case "lex":
+		if len(t) >= 2 {
+			s, _ := kit.Unesc(t[1])
+			return "lex " + t[1] + " " + clsTable(s)
+		}
+	case "parse":
+		if len(t) >= 3 {
+			s, _ := kit.Unesc(t[2])
+			return "parse " + t[1] + " " + t[2] + " " + clsTable(s)
+		}
+	}
+	return strings.Join(t, " ")
+}
+
+// ---------------------------------------------------------------------------------------------
+// entry point
+
 func Run(args []string) int {
-	fmt.Fprintln(os.Stderr, "c05: harness not implemented yet")
-	return 3
+	if len(args) > 0 && args[0] == "-worker" {
+		return workerMain()
+	}
+	f := kit.ParseFlags(args)
+	nw := 6
+	if v, err := strconv.Atoi(os.Getenv("VERIF_WORKERS")); err == nil && v > 0 {
+		nw = v
+	}
+	var ids []string
+	var cases [][]string
+	if f.Ops != "" {
+		lines, err := kit.ReadLines(f.Ops)
+		if err != nil {
+			fmt.Fprintln(os.Stderr, "c05:", err)
+			return 3
+		}
+		var cur []string
+		id := ""
+		for _, l := range lines {
+			t := strings.Fields(l)
+			switch {
+			case len(t) == 2 && t[0] == "case":
+				id, cur = t[1], nil
+			case len(t) == 1 && t[0] == "end":
+				ids = append(ids, id)
+				cases = append(cases, cur)
+				cur = nil
+			default:
+				cur = append(cur, l)
+			}
+		}
+	} else {
+		cases = generate(f)
+		for i := range cases {
+			ids = append(ids, fmt.Sprintf("g%d", i))
+		}
+	}
+	res := execCases(cases, nw)
+	out := kit.NewOut()
+	for i, c := range res {
+		out.Line("case", ids[i])
+		for _, l := range c {
+			out.Line(l)
+		}
+		out.Line("end")
+	}
+	out.Flush()
+	return 0
 }
